@@ -61,7 +61,7 @@ def check_finish_apply(op, target, result, leaf_rows):
     what = f"{type(op).__name__}._finish_apply"
     try:
         rows_t, cols_t = interp.eval_tree(target, leaf_rows)
-    except (interp.Unsupported, interp.IllFormed, KeyError):
+    except (interp.Unsupported, interp.IllFormed, KeyError, ArithmeticError, TypeError):
         bump("target_unevaluable")
         return v
     try:
@@ -72,8 +72,14 @@ def check_finish_apply(op, target, result, leaf_rows):
     except interp.Unsupported:
         bump("unsupported_operation")
         return v
+    except (ArithmeticError, TypeError):
+        bump("original_sequence_raises")
+        return v
     try:
         got, gcols = interp.eval_tree(result, leaf_rows)
+    except (ArithmeticError, TypeError) as e:
+        v.append({"kind": "merged_tree_evaluation_raises", "detail": f"{what}: op={op} target={target} result={result}: {type(e).__name__}: {e} (the operation applied to the target evaluates fine)"})
+        return v
     except interp.IllFormed as e:
         v.append({"kind": "result_tree_illformed", "detail": f"{what}: op={op} target={target} result={result}: {e}"})
         return v
